@@ -16,35 +16,39 @@ func sizeLimitStreams(seed int64) ([]Base, error) {
 	var out []Base
 	// (a) an LZMA chunk with exactly `target` compressed bytes: random literals, count found
 	// by bisection (the compressed size is monotone in the number of literals)
-	lits := make([]ref.Op, 70000)
 	r := rand.New(rand.NewSource(seed*13 + 5))
-	for i := range lits {
-		lits[i] = ref.Op{K: ref.OpLit, B: byte(r.Intn(256))}
-	}
-	csize := func(n int) (int, *ref.L2Enc, error) {
-		e := ref.NewL2Enc(1 << 22)
-		if err := e.Add(ref.ChunkSpec{Kind: "LRND", Props: ref.Props{LC: 3, LP: 0, PB: 2}, Ops: lits[:n]}); err != nil {
-			return 0, nil, err
-		}
-		return (int(e.Out[3])<<8 | int(e.Out[4])) + 1, e, nil
-	}
 	for _, target := range []int{65536, 65535} {
-		lo, hi := 1000, 65000
 		var found *ref.L2Enc
-		for lo <= hi {
-			mid := (lo + hi) / 2
-			cs, e, err := csize(mid)
-			if err != nil {
-				hi = mid - 1 // chunk too large for the synthesiser: fewer literals
-				continue
+		// the compressed size grows by 0..2 bytes per literal, so a given literal sequence may
+		// jump over the target: try further sequences until one lands on it
+		for attempt := 0; attempt < 40 && found == nil; attempt++ {
+			lits := make([]ref.Op, 70000)
+			for i := range lits {
+				lits[i] = ref.Op{K: ref.OpLit, B: byte(r.Intn(256))}
 			}
-			switch {
-			case cs == target:
-				found, lo = e, hi+1
-			case cs < target:
-				lo = mid + 1
-			default:
-				hi = mid - 1
+			csize := func(n int) (int, *ref.L2Enc, error) {
+				e := ref.NewL2Enc(1 << 22)
+				if err := e.Add(ref.ChunkSpec{Kind: "LRND", Props: ref.Props{LC: 3, LP: 0, PB: 2}, Ops: lits[:n]}); err != nil {
+					return 0, nil, err
+				}
+				return (int(e.Out[3])<<8 | int(e.Out[4])) + 1, e, nil
+			}
+			lo, hi := 1000, 65000
+			for lo <= hi {
+				mid := (lo + hi) / 2
+				cs, e, err := csize(mid)
+				if err != nil {
+					hi = mid - 1 // chunk too large for the synthesiser: fewer literals
+					continue
+				}
+				switch {
+				case cs == target:
+					found, lo = e, hi+1
+				case cs < target:
+					lo = mid + 1
+				default:
+					hi = mid - 1
+				}
 			}
 		}
 		if found == nil {
